@@ -95,6 +95,10 @@ class RunTaskExecutable(Operation):
             }
             if slot is not None:
                 env_vars[SLOT_ENV_VARIABLE_NAME] = str(slot)
+            else:
+                # Conductor itself may have been started from within a task
+                # of another Conductor project; do not leak that slot.
+                env_vars.pop(SLOT_ENV_VARIABLE_NAME, None)
 
             if self._record_output:
                 if slot is None:
